@@ -19,6 +19,10 @@ type CaseC09 struct {
 	Target string     `json:"target"` // "log" or "db": which stored file is corrupted
 	Plants []PlantC09 `json:"plants"` // in drawing order; positions refer to the line list after earlier plants
 	Shapes []string   `json:"shapes"`
+	// how the corrupted file is delivered to the program (line accounting must not depend on it)
+	Chunk     string `json:"chunk"`
+	ChunkSeed uint64 `json:"chunk_seed"`
+	MaxChunk  int    `json:"max_chunk"`
 }
 
 // PlantC09 is one planted malformed line.
@@ -34,10 +38,18 @@ func genC09(thorough bool) func(t *rapid.T) Case {
 	return func(t *rapid.T) Case {
 		c := &CaseC09{}
 		c.Target = rapid.SampledFrom([]string{"log", "db"}).Draw(t, "target")
-		c.Base = genCLIBase(t, baseOpts{shapes: []string{"reg"}, book: BookOpts{MaxRecipes: 5}, log: LogOpts{MaxDays: 5, MinDays: 1}})
+		bo := baseOpts{shapes: []string{"reg"}, book: BookOpts{MaxRecipes: 5}, log: LogOpts{MaxDays: 5, MinDays: 1}}
+		if rapid.IntRange(0, 4).Draw(t, "big_file") == 4 {
+			// files larger than the scanner's 4096-byte initial buffer
+			bo.book.MaxRecipes, bo.log.MinDays, bo.log.MaxDays, bo.log.Window = 14, 40, 90, 120
+		}
+		c.Base = genCLIBase(t, bo)
 		if len(c.Base.Book) == 0 {
 			c.Base.Book = []Block{{Head: "pie", Items: []Item{{"kcal", "2"}}}}
 		}
+		c.Chunk = rapid.SampledFrom([]string{"whole", "one", "seeded", "fixed"}).Draw(t, "chunk")
+		c.ChunkSeed = rapid.Uint64().Draw(t, "chunk_seed")
+		c.MaxChunk = rapid.SampledFrom([]int{2, 3, 7, 16, 64, 4095, 4096}).Draw(t, "max_chunk")
 		blocks, ly := c.Base.Log, c.Base.LogLayout
 		if c.Target == "db" {
 			blocks, ly = c.Base.Book, c.Base.BookLayout
@@ -143,7 +155,9 @@ func (c *CaseC09) Eval(ob *Obs) []Finding {
 		b := c.Base
 		b.Inv = iv
 		w := b.world()
-		w.Files[fileIdx(&w, path)].Data = text
+		fi := fileIdx(&w, path)
+		w.Files[fi].Data = text
+		w.Files[fi].Plan = ReadPlan{Chunk: c.Chunk, ChunkSeed: c.ChunkSeed, MaxChunk: c.MaxChunk, FaultAt: -1}
 		return w
 	}
 	ob.nontrivial(hashOf(c.Base) + hashOf(c.Plants))
@@ -152,6 +166,9 @@ func (c *CaseC09) Eval(ob *Obs) []Finding {
 	}
 	if k == 0 {
 		ob.probe("no_planted_line")
+	}
+	if len(text) > 4096 {
+		ob.probe("file_gt_4096")
 	}
 	var firstMsg string
 	for _, sh := range c.Shapes {
